@@ -104,10 +104,21 @@ class SimWorker:
         return self.pipe.parent_end
 
     def is_alive(self):
+        if not self.alive and self.lingering and self.sim.linger_checks:
+            # a dead process that has not been reaped yet: is_alive() says True for a few more checks, then the truth
+            self.linger_checks_left -= 1
+            if self.linger_checks_left < 0:
+                self.lingering = False
         return self.alive or self.lingering
 
     def enqueue(self, *inp):
         self.sim.at_enqueue(self, inp)
+        if not self.alive and self.lingering and self.sim.linger_checks:
+            # what a real process worker does in that window: its input pipe is gone, enqueue raises, is_alive() still says True
+            self.sim.log('enqueue_raised_by_lingering', self.index, inp)
+            self.sim.flags.add('enqueue_raises_on_lingering_dead_worker')
+            self.sim.note_failed_handing(self, inp)       # the input was being handed to a worker that is dead
+            raise OSError('broken pipe (simulated)')
         if not self.alive and self.lingering:
             # what the real thread / remote workers do in that window: the input is accepted (is_alive() is true) and never looked at
             self.sim.log('enqueued_to_lingering', self.index, inp)
@@ -171,6 +182,7 @@ class SimWorker:
     def _die(self, marker, why, linger=False):
         self.alive = False
         self.lingering = bool(linger)
+        self.linger_checks_left = self.sim.linger_checks
         self.died_by = why
         self.queue.clear()
         try:
@@ -233,6 +245,7 @@ class Sim:
         self.refuse = set((w, x) for w, x in case.get('refuse', []))
         self.flaky = set((w, x) for w, x in case.get('flaky', []))
         self.linger = bool(case.get('linger', False))
+        self.linger_checks = int(case.get('linger_checks', 0))     # >0: lingering workers raise on enqueue and report is_alive() for that many more checks
         # bookkeeping for the oracles (per run)
         self.handed = {}       # x -> list of worker indices it was accepted by
         self.failed_handing = {}
